@@ -42,6 +42,15 @@ def recvDecl (ops : StrOps α) (m : MapDict α) : List (Decl α) :=
   | none, some t => (lowerKeys ops t).map fun p => ⟨none, ops.lower p.2, p.1⟩
   | none, none => []
 
+/-- What the specification reads off one map dictionary. -/
+structure DeclMap (α : Type) where
+  identifier : α
+  send : List (Decl α)
+  recv : List (Decl α)
+deriving Repr
+
+def declMap (ops : StrOps α) (m : MapDict α) : DeclMap α := ⟨m.identifier, sendDecl ops m, recvDecl ops m⟩
+
 def allEq : List α → Bool
   | [] => true
   | a :: t => t.all (fun b => b = a)
@@ -83,7 +92,7 @@ def distinctFormats : List α → Bool
   | a :: t => !t.contains a && distinctFormats t
 
 /-- The map used for sending (`maps` = the maps that are attribute maps, in converter order). -/
-def senderMap (maps : List (MapDict α)) : Sender α → Option (MapDict α)
+def senderMap (maps : List (DeclMap α)) : Sender α → Option (DeclMap α)
   | .index i => maps[i]?
   | .format nf => maps.find? (fun m => m.identifier = nf)
 
@@ -122,12 +131,12 @@ def nonStringEntry (e : α × LVals α) : Bool :=
 
 /-- What the property demands of the wire attribute produced for one identity entry
     (`none`: nothing — the sending map does not define the key, or the value is not a list). -/
-def wireExpectation (ops : StrOps α) (m : MapDict α) (e : α × LVals α) : Option (WireAttr α → Bool) :=
+def wireExpectation (ops : StrOps α) (m : DeclMap α) (e : α × LVals α) : Option (WireAttr α → Bool) :=
   match e.2 with
   | .bare _ => none
   | .list vs =>
     if vs.any (fun v => (renderText ops v).isNone) then none else
-    match resolve (sendDecl ops m) e.1 (ops.lower e.1) with
+    match resolve m.send e.1 (ops.lower e.1) with
     | .must v =>
       if ops.truthy v then
         some fun a => a.name = some v && a.nameFormat = some m.identifier && a.friendlyName = some e.1 &&
@@ -143,7 +152,7 @@ def matchSub {β : Type} : List (β → Bool) → List β → Bool
   | _ :: _, [] => false
   | p :: ps, a :: as => if p a then matchSub ps as else matchSub (p :: ps) as
 
-def specToWire (ops : StrOps α) (maps : List (MapDict α)) (s : Sender α) (ava : List (α × LVals α))
+def specToWire (ops : StrOps α) (maps : List (DeclMap α)) (s : Sender α) (ava : List (α × LVals α))
     (out : Option (Res (List (WireAttr α)))) : Bool :=
   match senderMap maps s, out with
   | none, none => true
@@ -173,7 +182,7 @@ def knownValues (ops : StrOps α) (vs : List (WireValue α)) : List (RVal α) :=
 def plainValues (ops : StrOps α) (vs : List (WireValue α)) : List (RVal α) :=
   vs.map fun v => .str (ops.strip (v.text.getD ops.empty))
 
-def expectLocal (ops : StrOps α) (maps : List (MapDict α)) (allow : Bool) (a : WireAttr α) : Expect α :=
+def expectLocal (ops : StrOps α) (maps : List (DeclMap α)) (allow : Bool) (a : WireAttr α) : Expect α :=
   match a.name, a.values with
   | some n, some vs =>
     if vs.any (fun v => !v.ext.isEmpty) then .any else
@@ -188,7 +197,7 @@ def expectLocal (ops : StrOps α) (maps : List (MapDict α)) (allow : Bool) (a :
         let ms := maps.filter (fun m => m.identifier = f)
         if ms.isEmpty then (if f = ops.unspecified then .any else unknown)
         else
-          match resolve (ms.flatMap (recvDecl ops)) n (ops.lower (ops.strip n)) with
+          match resolve (ms.flatMap (·.recv)) n (ops.lower (ops.strip n)) with
           | .must l => .must l (knownValues ops vs)
           | .undefined => unknown
           | .ambiguous => .any
@@ -207,7 +216,7 @@ def isAny : Expect α → Bool
   | .any => true
   | _ => false
 
-def specToLocal (ops : StrOps α) (maps : List (MapDict α)) (allow : Bool) (attrs : List (WireAttr α))
+def specToLocal (ops : StrOps α) (maps : List (DeclMap α)) (allow : Bool) (attrs : List (WireAttr α))
     (out : Res (Dict α (List (RVal α)))) : Bool :=
   let es := attrs.map (expectLocal ops maps allow)
   if es.any isAny then true
@@ -223,16 +232,16 @@ inductive ExpectRT (α : Type) where
   | free                                   -- nothing demanded
 deriving Repr, DecidableEq
 
-def expectRT (ops : StrOps α) (maps : List (MapDict α)) (m : MapDict α) (e : α × LVals α) : ExpectRT α :=
+def expectRT (ops : StrOps α) (maps : List (DeclMap α)) (m : DeclMap α) (e : α × LVals α) : ExpectRT α :=
   match e.2 with
   | .bare _ => .free
   | .list vs =>
     if vs.any (fun v => (renderText ops v).isNone) then .free else
-    match resolve (sendDecl ops m) e.1 (ops.lower e.1) with
+    match resolve m.send e.1 (ops.lower e.1) with
     | .must v =>
       if !ops.truthy v then .free else
       let ms := maps.filter (fun m' => m'.identifier = m.identifier)
-      match resolve (ms.flatMap (recvDecl ops)) v (ops.lower (ops.strip v)) with
+      match resolve (ms.flatMap (·.recv)) v (ops.lower (ops.strip v)) with
       | .must l =>
         if v = ops.eptidOid then
           (if l = ops.eptidLocal && vs.all isStr then .must l (vs.map fun x => .str (trimmed ops (renderText ops x)))
@@ -241,6 +250,16 @@ def expectRT (ops : StrOps α) (maps : List (MapDict α)) (m : MapDict α) (e : 
       | .undefined => .lost
       | .ambiguous => .free
     | _ => .free
+
+/-- Side condition of the round-trip theorem (finding `C17/eptid-empty-value`): an entry that goes out
+    through the eduPersonTargetedID special case has no empty-string value. -/
+def eptidValuesOk (ops : StrOps α) (m : DeclMap α) (e : α × LVals α) : Bool :=
+  match resolve m.send e.1 (ops.lower e.1), e.2 with
+  | .must v, .list vs =>
+    !(v = ops.eptidOid) || vs.all (fun x => match x with
+      | .str s => ops.truthy s
+      | _ => true)
+  | _, _ => true
 
 def isLost : ExpectRT α → Bool
   | .lost => true
@@ -257,7 +276,7 @@ def demandedKeys (es : List (ExpectRT α)) : List α :=
     | .must l _ => some l
     | _ => none
 
-def specRoundTrip (ops : StrOps α) (maps : List (MapDict α)) (s : Sender α) (_allow : Bool)
+def specRoundTrip (ops : StrOps α) (maps : List (DeclMap α)) (s : Sender α) (_allow : Bool)
     (ava : List (α × LVals α)) (out : Option (Res (Dict α (List (RVal α))))) : Bool :=
   match senderMap maps s, out with
   | none, none => true
@@ -274,7 +293,7 @@ def specRoundTrip (ops : StrOps α) (maps : List (MapDict α)) (s : Sender α) (
 
 /-! ### diagnostics for the harness (which entry fails, and how) — not part of the specification -/
 
-def whyToWire (ops : StrOps α) (maps : List (MapDict α)) (s : Sender α) (ava : List (α × LVals α))
+def whyToWire (ops : StrOps α) (maps : List (DeclMap α)) (s : Sender α) (ava : List (α × LVals α))
     (out : Option (Res (List (WireAttr α)))) : List (String × α) :=
   match senderMap maps s, out with
   | some m, some (.ok l) =>
@@ -283,7 +302,7 @@ def whyToWire (ops : StrOps α) (maps : List (MapDict α)) (s : Sender α) (ava 
       | none => none
   | _, _ => []
 
-def whyToLocal (ops : StrOps α) (maps : List (MapDict α)) (allow : Bool) (attrs : List (WireAttr α))
+def whyToLocal (ops : StrOps α) (maps : List (DeclMap α)) (allow : Bool) (attrs : List (WireAttr α))
     (out : Res (Dict α (List (RVal α)))) : List (String × α) :=
   match out with
   | .raised => []
@@ -297,15 +316,16 @@ def whyToLocal (ops : StrOps α) (maps : List (MapDict α)) (allow : Bool) (attr
       | none => some ("unexpected-attribute", p.1)
       | some _ => none)
 
-def whyRoundTrip (ops : StrOps α) (maps : List (MapDict α)) (s : Sender α)
+def whyRoundTrip (ops : StrOps α) (maps : List (DeclMap α)) (s : Sender α)
     (ava : List (α × LVals α)) (out : Option (Res (Dict α (List (RVal α))))) : List (String × α) :=
   match senderMap maps s, out with
   | some m, some (.ok d) =>
+    let es := ava.map (expectRT ops maps m)
     ava.filterMap fun e => match expectRT ops maps m e with
       | .lost => some ("wire-name-unknown-on-receipt", e.1)
-      | .must l vs => match Dict.get d l with
+      | .must l _ => match Dict.get d l with
         | none => some ("attribute-lost", e.1)
-        | some got => if vs.isSublist got then none else some ("value-lost", e.1)
+        | some got => if (demanded es l).isSublist got then none else some ("value-lost", e.1)
       | .free => none
   | _, _ => []
 
